@@ -11,6 +11,11 @@ CLAIMS = {
   'text': 'Contracts on the real _defer_rcu / rcu_defer_barrier_queue / barrier / (un)register code: encoder writes exactly the documented 1/2/3-slot form for all 2^192 (fct, p, last_fct) patterns and positions; decoder (loop contract + ghost entry table, unbounded entry count up to the ring size, any wrap position, termination variant) invokes exactly the queued (fct,p) pairs in order, each once; decode(encode(x)) = x; full queue flushes first; head snapshots precede synchronize_rcu and only entries below them run after it; unregister drains and re-establishes the precondition of register. One list-walking obligation (rcu_defer_barrier over 2 queues) is bounded and reported apart.',
   'note': 'Assumed: synchronize_rcu contract (C01), sequential meaning of uatomic/cmm primitives, pthread/futex stubs; scratch rewrites (DQ_FCT_MARK widening, fct(p)->recorder, loop marker) are must-fire and value-preserving. Not decided: reclaimer-thread scheduling, sleep/wake liveness.',
  },
+ 'C09': {
+  'category': 'proof',
+  'text': 'Modular chain of function and loop contracts on the real resize code: the stored target is a power of two in [1,max] for every request; on a quiescent table the do-while of _do_cds_lfht_resize exits after one pass for EVERY requested size (termination by a passing unwinding assertion under the grow/shrink contracts) with size == target; grow/shrink/init_table/fini_table compute exactly the documented sizes for all orders <= 63 (loop invariants + variants), allocate < populate < release-publish on grow, publish < GP < unlink < GP < free (each order once) on shrink, size always a power of two within [1,max]; stops under in_progress_destroy.',
+  'note': 'Assumed: bsr-based fls (inline asm) instruction contract; sequential primitives; quiescent table (no concurrent re-targeting); leaves (alloc/populate/remove/free of bucket tables) are ghost-event contracts - their bodies belong to C05/C08; partition and work-queue threads not modelled.',
+ },
 }
 for i in range(1, 21):
     k = 'C%02d' % i
